@@ -5,6 +5,7 @@ import Driver.C08
 import Driver.C07
 import Driver.C11
 import Driver.C20
+import Driver.C19
 open Lean
 
 def dispatch (prop : String) (input : Json) : Except String Json :=
@@ -15,6 +16,7 @@ def dispatch (prop : String) (input : Json) : Except String Json :=
   | "C07" => Driver.C07.handle input
   | "C11" => Driver.C11.handle input
   | "C20" => Driver.C20.handle input
+  | "C19" => Driver.C19.handle input
   | p => .error s!"no model for {p}"
 
 def handleLine (line : String) : String :=
